@@ -120,9 +120,14 @@ func main() {
 		for _, f := range d.Files {
 			files[f.Path] = f.Body
 		}
-		var cur *runState
+		var (
+			mu  sync.Mutex
+			cur *runState
+		)
 		srv := httptest.NewServer(http.HandlerFunc(func(w http.ResponseWriter, r *http.Request) {
+			mu.Lock()
 			rs := cur
+			mu.Unlock()
 			line := r.RequestURI
 			if r.Method != http.MethodGet {
 				line = r.Method + " " + line
@@ -154,39 +159,54 @@ func main() {
 			w.Write([]byte(body))
 		}))
 		defer srv.Close()
-		client := srv.Client()
-		ds := &replication.Datasource{BaseURL: srv.URL + d.Prefix, Client: client}
-
 		out := Out{D: i}
 		for _, q := range d.Queries {
-			ctx, cancel := context.WithTimeout(context.Background(), deadline)
-			rs := &runState{cap: d.Cap, cancel: cancel}
-			cur = rs
-			t := time.Unix(q.Sec, q.Nsec).UTC()
 			var (
-				seq uint64
-				st  *replication.State
-				err error
+				seq    uint64
+				st     *replication.State
+				err    error
+				rs     *runState
+				ctx    context.Context
+				cancel context.CancelFunc
 			)
-			switch d.Kind {
-			case "minute":
-				var n replication.MinuteSeqNum
-				n, st, err = ds.MinuteStateAt(ctx, t)
-				seq = uint64(n)
-			case "hour":
-				var n replication.HourSeqNum
-				n, st, err = ds.HourStateAt(ctx, t)
-				seq = uint64(n)
-			case "day":
-				var n replication.DaySeqNum
-				n, st, err = ds.DayStateAt(ctx, t)
-				seq = uint64(n)
-			case "changesets":
-				var n replication.ChangesetSeqNum
-				n, st, err = ds.ChangesetStateAt(ctx, t)
-				seq = uint64(n)
-			default:
-				vio.Must(errors.New(d.Kind), "unknown kind")
+			// A fresh transport per lookup: no connection survives from a lookup that was cut off by the cap.
+			// A context error although nobody cancelled this lookup's context (no cap, no deadline) cannot come
+			// from the code under test (it creates no contexts): it is a transport artefact, the lookup is redone.
+			for attempt := 0; attempt < 3; attempt++ {
+				tr := &http.Transport{}
+				ds := &replication.Datasource{BaseURL: srv.URL + d.Prefix, Client: &http.Client{Transport: tr}}
+				ctx, cancel = context.WithTimeout(context.Background(), deadline)
+				rs = &runState{cap: d.Cap, cancel: cancel}
+				mu.Lock()
+				cur = rs
+				mu.Unlock()
+				t := time.Unix(q.Sec, q.Nsec).UTC()
+				switch d.Kind {
+				case "minute":
+					var n replication.MinuteSeqNum
+					n, st, err = ds.MinuteStateAt(ctx, t)
+					seq = uint64(n)
+				case "hour":
+					var n replication.HourSeqNum
+					n, st, err = ds.HourStateAt(ctx, t)
+					seq = uint64(n)
+				case "day":
+					var n replication.DaySeqNum
+					n, st, err = ds.DayStateAt(ctx, t)
+					seq = uint64(n)
+				case "changesets":
+					var n replication.ChangesetSeqNum
+					n, st, err = ds.ChangesetStateAt(ctx, t)
+					seq = uint64(n)
+				default:
+					vio.Must(errors.New(d.Kind), "unknown kind")
+				}
+				tr.CloseIdleConnections()
+				if err != nil && errClass(err) == "ctx" && ctx.Err() == nil {
+					cancel()
+					continue
+				}
+				break
 			}
 			timedOut := ctx.Err() == context.DeadlineExceeded
 			cancel()
@@ -213,7 +233,6 @@ func main() {
 			}
 			out.Runs = append(out.Runs, Run{Q: q.Q, Got: g})
 		}
-		client.CloseIdleConnections()
 		return out
 	})
 }
